@@ -139,7 +139,16 @@ CHECKS = {
          "reproduction at budget 0. Tie: rankSelect is compared with the implementation on recorded singular values; the kernel "
          "contract, left@right = U_r S_r Vh_r and ‖M−left@right‖² = tail are validated on every recorded call; exact ties (integer "
          "spectra, budget = a tail) decide ≤ vs <. Error vs sum/max of tails for Tensor(x, ranks_tt/ranks_tucker), orthonormality, "
-         "optimality of the product, CP-ALS by a NumPy SVD oracle.",
+         "optimality of the product, CP-ALS by a NumPy SVD oracle."
+         'EXTENSION (whole constructor paths): tn.Tensor(x, ranks_tt=r) is _full_rank_tt followed by round_tt(rmax=r), '
+         'ranks_tucker through round_tucker, eps through round; composing C01.roundtrip with the C04 sweep theorems gives '
+         'fixed_rank_tt_error_eq / fixed_rank_tucker_error_eq (every rank ≤ the request and ‖x − result‖² = the sum over the '
+         "sweep's steps of the discarded tails, exactly, also when the cap binds), fixed_rank_exact, and — with Mathlib's matrix "
+         'rank (rank_mul_le, rank_diagonal) — fixed_rank_exact_of_unfolding_ranks: if every unfolding of x has rank ≤ the '
+         "requested rank at that bond, every discarded tail vanishes and x is reproduced (within round_tt's own 1e-14 tolerance: "
+         'fixed_rank_within_eps_of_unfolding_ranks); construct_eps_within for Tensor(x, eps=e). The three paths are replayed by '
+         'chaining the existing driver commands with the recorded kernel answers and compared with the library (battery '
+         'c05_fixed_rank.py).',
     note="PARTIAL: the two-sided TT/Tucker bound in terms of the ORIGINAL unfoldings (needs Eckart–Young and σ-monotonicity, absent "
          "from Mathlib) and CP-ALS monotonicity are open statements. Trusted: Lean kernel + standard axioms; torch.linalg.svd/eigh/lstsq "
          "(recorded, contract validated numerically); harness glue; sampling. Known findings: eig path on rank-deficient/small-norm "
@@ -167,7 +176,15 @@ CHECKS = {
          "assignment of tangents to the core/factor entries, i.e. in every gradient; `.data *=` is modelled as dataScale and proved NOT "
          "to be multiplication by a constant (the repaired defect). Tie to /repo: the same programs run through the model over dual "
          "rationals and through autograd; directional derivatives of the result cores agree; plus autograd(compressed) vs "
-         "autograd(dense) for every parameter and every scalar head (sum/mean/dot/norm/var/dist/README loss), and no silent detachment.",
+         "autograd(dense) for every parameter and every scalar head (sum/mean/dot/norm/var/dist/README loss), and no silent detachment."
+         'EXTENSION: means and variances transfer to dual numbers although Dual K is not a field: the C06 statistics theorems '
+         'are re-proved from three laws of division by natural numbers that hold for every field AND for Dual K with the '
+         "driver's quotient-rule instance (mean_tangent, mean_subset_tangent, var_tangent with the explicit tangent (1/N)·Σ "
+         '2(v_i − mean v)(d_i − mean d), weighted versions); norm / dist / std as a smooth head applied to proved radicands '
+         "(norm_tangent, dist_tangent, std_tangent, for any head f with derivative f'); the README loss norm(t[:3,...] − "
+         't[-3:,...]) as one theorem (readme_loss_tangent, any number of modes, sizes ≥ 3). The tangents the compiled model '
+         "propagates through mean / meankeep / var are compared with torch.autograd's directional derivatives through tn.mean / "
+         'tn.var (battery c07_tangent.py).',
     note="Trusted: Lean kernel + standard axioms; PyTorch's autograd engine (modelled as dual arithmetic, validated per run); harness "
          "glue; sampling. sqrt heads are covered by smooth_head (equal duals in, equal duals out); mean/var are covered through sum/dot.",
     tech="Lean 4 proof (instantiation of the ring-generic theorems at the dual numbers) + differential correspondence against autograd",
